@@ -936,8 +936,9 @@ impl VInto<BinOper> for BinOper { open spec fn sp_into(self) -> BinOper { self }
 // `impl From<PgBinOper> for BinOper` / `From<SqliteBinOper>` (src/extension): the operator wrapped in its dialect's variant
 impl VInto<BinOper> for PgBinOper { open spec fn sp_into(self) -> BinOper { BinOper::PgOperator(self) } #[verifier::external_body] fn into(self) -> BinOper { unimplemented!() } }
 impl VInto<BinOper> for SqliteBinOper { open spec fn sp_into(self) -> BinOper { BinOper::SqliteOperator(self) } #[verifier::external_body] fn into(self) -> BinOper { unimplemented!() } }
-// Expr -> SimpleExpr (`impl From<Expr> for SimpleExpr`: the expression the builder holds): a function of the builder (uninterpreted here)
-impl VInto<SimpleExpr> for Expr { uninterp spec fn sp_into(self) -> SimpleExpr; #[verifier::external_body] fn into(self) -> SimpleExpr { unimplemented!() } }
+// Value -> SimpleExpr (`impl<T: Into<Value>> From<T> for SimpleExpr`): the value as an expression
+impl VInto<Value> for Value { open spec fn sp_into(self) -> Value { self } fn into(self) -> Value { self } }
+impl VInto<ColumnRef> for ColumnRef { open spec fn sp_into(self) -> ColumnRef { self } fn into(self) -> ColumnRef { self } }
 // LikeExpr -> SimpleExpr (pattern [ESCAPE c]): a function of the pattern (uninterpreted here; its rendering is unit prec's lemma_escape_ok)
 impl VInto<SimpleExpr> for LikeExpr { uninterp spec fn sp_into(self) -> SimpleExpr; #[verifier::external_body] fn into(self) -> SimpleExpr { unimplemented!() } }
 // R-collect (trusted): `v.into_iter().map(|v| v.into()).collect()` is the list of the converted items, in order
@@ -953,7 +954,7 @@ BINOPS = [("add", "Add"), ("and", "And"), ("div", "Div"), ("eq", "Equal"), ("gt"
 
 def build_expr(u):
     u.emit("use vstd::prelude::*;\nverus! {\n")
-    for n in ["DynIden", "Value", "ColumnRef", "SubQueryStatement", "CaseStatement", "FunctionCall", "SelectStatement", "Expr", "LikeExpr"]:
+    for n in ["DynIden", "Value", "ColumnRef", "SubQueryStatement", "CaseStatement", "FunctionCall", "SelectStatement", "LikeExpr", "Asterisk"]:
         u.emit("#[verifier::external_body]\npub struct %s { _opaque: u8 }\n" % n, kind="spec", key="R-opaque:" + n, props=PE)
     u.type_item("src/extension/postgres/mod.rs", "enum", "PgBinOper", props=PE)
     u.type_item("src/extension/sqlite/mod.rs", "enum", "SqliteBinOper", props=PE)
@@ -962,6 +963,7 @@ def build_expr(u):
     u.type_item("src/types.rs", "enum", "SubQueryOper", props=PE)
     u.type_item("src/types.rs", "enum", "Keyword", props=PE)
     u.type_item("src/expr.rs", "enum", "SimpleExpr", props=PE)
+    u.type_item("src/expr.rs", "struct", "Expr", props=PE)
     u.spec(EXPR_TRAITS, "builders::expr-traits", props=PE)
     E = "src/expr.rs"
     r_vi = make_r_sub("R-into", r"\bInto<(SimpleExpr|BinOper)>", r"VInto<\1>", min_count=0)
@@ -971,6 +973,30 @@ def build_expr(u):
         u.fn(E, "impl From<%s> for SimpleExpr" % ty, "from", props=PE, key="From<%s> for SimpleExpr::from" % ty, vpath="<%s as VInto<SimpleExpr>>::into" % ty, rename="into", no_canary=True,
              rules=[make_r_sub("R-into", r"fn from\((\w+): %s\) -> Self" % ty, "fn from(self) -> SimpleExpr"), make_r_sub("R-into", r"SimpleExpr::%s\(\w+\)" % var, "SimpleExpr::%s(self)" % var)])
         u.emit("}\n")
+    # ---- Expr: the builder HOLDS an expression (`left`); the legacy fields right / uopr / bopr are never set (type invariant, established by the
+    # only constructor new_with_left and used by the conversion into SimpleExpr, whose `right.unwrap()` is then unreachable)
+    u.spec("""impl Expr {
+    #[verifier::type_invariant]
+    pub closed spec fn inv(self) -> bool { self.right is None && self.uopr is None && self.bopr is None }
+    pub closed spec fn held(self) -> SimpleExpr { self.left }
+}
+""", "builders::Expr-invariant", props=PE)
+    u.emit("impl VInto<SimpleExpr> for Expr {\n    open spec fn sp_into(self) -> SimpleExpr { self.held() }\n", kind="spec", key="builders::From<Expr> for SimpleExpr", props=PE)
+    u.fn(E, "impl From<Expr> for SimpleExpr", "from", props=PE, key="From<Expr> for SimpleExpr::from", vpath="<Expr as VInto<SimpleExpr>>::into", rename="into", no_canary=True,
+         rules=[make_r_sub("R-into", r"fn from\(src: Expr\) -> Self", "fn from(self) -> SimpleExpr"), make_r_sub("R-into", r"\bsrc\.", "self.")],
+         proofs={"body-start": "proof { use_type_invariant(&self); }"})
+    u.emit("}\n")
+    u.emit("impl Expr {\n")
+    u.fn(E, "impl Expr", "new_with_left", ret="r", props=PE, key="Expr::new_with_left", vpath="Expr::new_with_left", rules=[r_vi], spec="ensures r.held() == left.sp_into(),")
+    u.fn(E, "impl Expr", "expr", ret="r", props=PE, key="Expr::expr", vpath="Expr::expr", rules=[r_vi, make_r_sub("R-inherent", r"^(\s*)pub fn", r"\1fn", flags=re.M, min_count=0)],
+         spec="ensures\n    // the builder stands for exactly the expression given\n    r.held() == expr.sp_into(),")
+    u.fn(E, "impl Expr", "col", ret="r", props=PE, key="Expr::col", vpath="Expr::col", rules=[r_vi, make_r_sub("R-inherent", r"^(\s*)pub fn", r"\1fn", flags=re.M, min_count=0)],
+         spec="ensures r.held() == SimpleExpr::Column(n.sp_column_ref()),")
+    u.fn(E, "impl Expr", "column", ret="r", props=PE, key="Expr::column", vpath="Expr::column", rules=[r_vi, make_r_sub("R-inherent", r"^(\s*)pub fn", r"\1fn", flags=re.M, min_count=0)],
+         spec="ensures r == SimpleExpr::Column(n.sp_column_ref()),")
+    u.fn(E, "impl Expr", "value", ret="r", props=PE, key="Expr::value", vpath="Expr::value", rules=[r_vi, make_r_sub("R-inherent", r"^(\s*)pub fn", r"\1fn", flags=re.M, min_count=0)],
+         spec="ensures r == v.sp_into(),")
+    u.emit("}\n")
     # ---- trait ExprTrait: binary / unary are the implementor's; every other method is verified ONCE against their contract --------------------
     u.emit("""pub trait ExprTrait: Sized {
     // the expression the receiver stands for
